@@ -53,6 +53,9 @@ def run(ctx):
     ctx.guard(listnodes.check, ctx, 'C07-NONE')
     ctx.guard(reclass, ctx, g)
     ctx.guard(field_kinds, ctx, g)
+    ctx.guard(distinct_trees, ctx, g)
+    from . import c08 as _c08
+    ctx.shared(_c08.lex_rule, ctx, g)      # exactly the reserved words are keywords; every other word stays an identifier
     L = g.lalr()
     total = sum(len(r.instances) for r in ctx.rules)
     bad = sum(len(r.violations) for r in ctx.rules)
@@ -390,6 +393,36 @@ def reclass(ctx, g):
     for c, kws in sorted(by_class.items()):
         r.check(len(kws) == 1, '%s is built for %s only' % (c, '/'.join(sorted(kws))), g.productions[0].fn, construct='bridgepoint.oal:OALParser',
                 key='injective ' + c, msg='%s is built for the keywords %s: two different statements parse to the same tree' % (c, sorted(kws)))
+
+
+def distinct_trees(ctx, g):
+    '''different fixed texts parse to different trees: two productions whose right-hand sides are different sequences of fixed tokens
+    (self / selected, break / continue ...) and whose actions use no p[i] must not build the same node'''
+    import re as _re
+    r = ctx.rule('C07-DISTINCT', 'productions for different fixed words build different nodes', floor=4,
+                 oracle='injectivity of parsing on fixed-word productions')
+    fixed = set(g.keywords)
+    for t in g.token_rules:
+        if _re.fullmatch(r'(\\.|[^\\\[\](){}|*+?.^$])+', t.regex):
+            fixed.add(t.name)
+    built = {}
+    for p in g.productions:
+        if not p.syms or not all(s_ in fixed for s_ in p.syms):
+            continue
+        pv = p.fn.args.args[1].arg if len(p.fn.args.args) > 1 else 'p'
+        for st in ast.walk(p.fn):
+            if isinstance(st, ast.Assign) and pm.match('%s[0]' % pv, st.targets[0]) is not None and isinstance(st.value, ast.Call) and \
+                    not any(isinstance(x, ast.Name) and x.id == pv for x in ast.walk(st.value)):
+                built.setdefault(src(st.value), []).append(p)
+    n = 0
+    for what, ps in sorted(built.items()):
+        texts = sorted({' '.join(p.syms) for p in ps})
+        n += 1
+        r.check(len(texts) == 1, '%s is built for `%s` only' % (what, texts[0]), ps[0].fn, construct='bridgepoint.oal:OALParser.' + ps[-1].fn.name,
+                key='same-tree ' + what, msg='the different texts %s all parse to the node %s (%s): after parsing they cannot be told apart' % (
+                    texts, what, ', '.join(p.fn.name for p in ps)))
+    r.check(n >= 4, '%d fixed-word node constructions examined' % n, g.productions[0].fn, construct='bridgepoint.oal:OALParser', key='count',
+            msg='only %d fixed-word productions found' % n)
 
 
 def field_kinds(ctx, g):
